@@ -172,6 +172,23 @@ theorem f_form_eq_object_form (w : World α) (kind : Kind) (tb : Tables α) (int
   simp only [World.argContents] at h1 h2
   rw [h1, show w.fForm kind tb inter id T = w.call kind tb inter (.nd id) T from rfl, h2, hv]
 
+/-- **f_form_eq_object_form, any dtype.**  For an ndarray that is not float64 (an integer-typed vertex
+`np.array([1, 0, 0])`, a float32 array) `Gamma(x, T)` converts a copy and `Gamma.f(x, T, *args)` reads the
+array itself; both return the float coefficients of the array's *values* (the result buffer is
+`np.ones(x.size)`, it does not inherit `x.dtype`), and neither writes the caller's array. -/
+theorem f_form_eq_object_form_any_dtype (w : World α) (kind : Kind) (tb : Tables α) (inter : Nat → Nat → Nat → α)
+    (T : α) (id : Nat) (hid : id < w.heap.size) :
+    (w.call kind tb inter (.ndOther id) T).1.read (w.call kind tb inter (.ndOther id) T).2
+        = (w.fForm kind tb inter id T).1.read (w.fForm kind tb inter id T).2
+    ∧ (w.fForm kind tb inter id T).1.read (w.fForm kind tb inter id T).2 = (gammaF kind tb inter (w.read id) T).gamma
+    ∧ (w.call kind tb inter (.ndOther id) T).1.read id = w.read id
+    ∧ (w.fForm kind tb inter id T).1.read id = w.read id := by
+  have h1 := call_spec w kind tb inter (.ndOther id) T hid
+  have h2 := call_spec w kind tb inter (.nd id) T hid
+  simp only [World.argContents] at h1 h2
+  refine ⟨?_, h2.2.2.2.2, h1.1 id hid, h2.1 id hid⟩
+  rw [h1.2.2.2.2]; exact h2.2.2.2.2.symm
+
 /-- `IdealActivityCoefficients(...)(x, T)` allocates its result and writes nothing. -/
 theorem ideal_call_pure (w : World α) (arg : Arg α) (T : α) :
     (∀ id, id < w.heap.size → (w.callIdeal arg T).1.read id = w.read id)
